@@ -44,7 +44,7 @@ def strategy(tier):
         # output locations of C13: absolute, relative to the cwd, nested directly below the input root (not pre-existing)
         "outloc": st.sampled_from(["abs", "nested", "abs", "rel"]),
         # an earlier run of the same command line, minus -r or with another prefix, already filled the output directory
-        "prior": st.sampled_from([None, None, "no-filters", "non-recursive", "other-prefix"]),
+        "prior": st.sampled_from([None, None, "no-filters", "no-filters", "non-recursive", "other-prefix"]),
         # a symbolic link 'zz_alias' to the first subdirectory, with input.follow_symlinks off (default) or on
         "alias": st.sampled_from([None, None, "nofollow", "follow"]),
         # a symbolic link in the tree to a CMake file stored outside it (a processed file like any other)
@@ -72,6 +72,8 @@ def parse_index(text):
 
 def evaluate(case):
     res = Result()
+    if case.get("prior") == "no-filters":
+        case = dict(case, auto=True)       # the earlier unfiltered run matters where directories are judged by their content
     tree = prepare_tree(case)
     with S.Sandbox("c14") as sb:
         inp = sb.path("in")
